@@ -124,14 +124,22 @@ def render_v3000(M, rng, perm=None, opts=None):
             grp = [b for b in bonds if centre in b[:2] and b[2] == t]
             grp = grp[:rng.randint(1, len(grp))]
             bonds = [b for b in bonds if b not in grp]
-            si = max(used) + rng.randint(1, 9)
-            used.add(si)
-            star_lines.append(_join([str(si), "*", "0", "0", "0", "0"], rng, o["wide"]))
+            if star_bonds and rng.random() < 0.4:
+                si = int(star_bonds[-1][1][0] if star_bonds[-1][1][1] == str(idx[star_bonds[-1][3]]) else star_bonds[-1][1][1])   # one star atom shared by two bond lines
+            else:
+                si = max(used) + rng.randint(1, 9)
+                used.add(si)
+                star_lines.append(_join([str(si), "*", "0", "0", "0", "0"], rng, o["wide"]))
             others = [b[1] if b[0] == centre else b[0] for b in grp]
             ends = [str(si), str(idx[centre])]
             if rng.random() < 0.5:
                 ends.reverse()
-            star_bonds.append((t, ends, others))
+            star_bonds.append((t, ends, others, centre))
+    if o["star"] and rng.random() < 0.15:
+        # a star atom that no bond line refers to
+        si = max(used) + rng.randint(1, 9)
+        used.add(si)
+        star_lines.append(_join([str(si), "*", "0", "0", "0", "0"], rng, o["wide"]))
     # star atom lines may sit anywhere in the atom block
     for sl in star_lines:
         alines.insert(rng.randint(0, len(alines)), sl)
@@ -147,8 +155,8 @@ def render_v3000(M, rng, perm=None, opts=None):
             ex = [rng.choice(BOND_EXTRAS)] if o["extras"] and rng.random() < 0.4 else []
             blines.append(_join([str(j), str(t)] + e + ex, rng, o["wide"]))
         else:
-            t, ends, others = b
-            ep = "ENDPTS=(" + " ".join([str(len(others))] + [str(idx[x]) for x in others]) + ")"
+            t, ends, others, _centre = b
+            ep = "ENDPTS=(" + _join([str(len(others))] + [str(idx[x]) for x in others], rng, o["wide"]) + ")"       # runs of blanks between the entries too
             tail = [ep, "ATTACH=" + rng.choice(["ALL", "ANY"])]
             if rng.random() < 0.5:
                 tail.reverse()
